@@ -35,6 +35,10 @@ def rotatedtoric : List String → Option String
       let r ← parseInt? r; let c ← parseInt? c; let i ← parseIdx? i
       let op ← (match op.toList with | [ch] => P1.ofChar? ch | _ => none)
       pure (showBits (RotatedToric.site r c op (RotatedToric.identity r c) i))
+  | ["sites", r, c, op, v, l] => do
+      let r ← parseInt? r; let c ← parseInt? c; let op ← parseOp1? op; let v ← parseBits? v; let l ← parseIdxList? l
+      if v.length != 2 * (RotatedToric.nQubits r c).toNat then none
+      else pure (showBits (RotatedToric.sites r c op v l))
   | ["plaq", r, c, i] => do
       let r ← parseInt? r; let c ← parseInt? c; let i ← parseIdx? i
       pure (showBits (RotatedToric.plaquette r c (RotatedToric.identity r c) i.1 i.2))
